@@ -113,6 +113,50 @@ async fn main() {
         cluster.connections(None).iter().filter(|c| c.registered.is_empty()).all(|c| c.keyspace.as_deref() == Some("ks"))
     })
     .await;
+    // the keyspace counts as acked only when the SetKeyspace reply has been WRITTEN: with a delayed reply
+    // the request frames handled in between still see the old acked keyspace
+    {
+        use tokio::io::{AsyncReadExt, AsyncWriteExt};
+        cluster.script(0, "USE tab", vec![Action::Delay(150), Action::Default]);
+        let mut raw = tokio::net::TcpStream::connect(cluster.contact_point(0)).await.expect("raw connect");
+        let q = |stream: i16, text: &str| {
+            let mut w = wire::W::new();
+            w.long_string(text).short(1).u8(0);
+            Frame { version: 0x04, flags: 0, stream, opcode: op::QUERY, body: w.done() }.encode()
+        };
+        let mut startup = wire::W::new();
+        startup.short(1).string("CQL_VERSION").string("4.0.0");
+        raw.write_all(&Frame { version: 0x04, flags: 0, stream: 0, opcode: op::STARTUP, body: startup.done() }.encode()).await.unwrap();
+        raw.write_all(&q(1, "USE ks")).await.unwrap();
+        let mut buf = vec![0u8; 4096];
+        tokio::time::sleep(Duration::from_millis(50)).await;
+        let _ = raw.read(&mut buf).await;
+        let seen = Arc::new(std::sync::Mutex::new(Vec::new()));
+        let seen2 = seen.clone();
+        cluster.set_handler(Some(Arc::new(move |ctx: &ReqCtx| {
+            if ctx.text.as_deref() == Some("SELECT probe") {
+                seen2.lock().unwrap().push((ctx.keyspace.clone(), ctx.requested_keyspace.clone()));
+            }
+            None
+        })));
+        raw.write_all(&q(2, "USE tab")).await.unwrap(); // reply delayed by 150 ms
+        raw.write_all(&q(3, "SELECT probe")).await.unwrap(); // overtakes the ack
+        tokio::time::sleep(Duration::from_millis(60)).await;
+        let mine = cluster.connections(Some(0)).into_iter().find(|c| c.requested_keyspace.as_deref() == Some("tab")).expect("raw conn");
+        check(mine.keyspace.as_deref() == Some("ks"), "ConnInfo.keyspace is still the old acked keyspace while the USE reply is delayed");
+        tokio::time::sleep(Duration::from_millis(200)).await;
+        raw.write_all(&q(4, "SELECT probe")).await.unwrap();
+        tokio::time::sleep(Duration::from_millis(50)).await;
+        let mine = cluster.connections(Some(0)).into_iter().find(|c| c.conn_id == mine.conn_id).unwrap();
+        check(mine.keyspace.as_deref() == Some("tab"), "ConnInfo.keyspace changed when the SetKeyspace reply was written");
+        let s = seen.lock().unwrap().clone();
+        check(
+            s == vec![(Some("ks".to_string()), Some("tab".to_string())), (Some("tab".to_string()), Some("tab".to_string()))],
+            "ReqCtx.keyspace = acked (old) for the request that overtook the ack, requested_keyspace = new",
+        );
+        cluster.set_handler(None);
+        drop(raw);
+    }
     let e = session.use_keyspace("nope", false).await;
     check(e.is_err(), "USE of a keyspace that is not in the description fails (Invalid)");
     // NOTE (driver behaviour observed here): a failed use_keyspace leaves the pools' target keyspace
